@@ -248,6 +248,29 @@ def run_repeat(case, res):
     res["sample"] = dict(case)
 
 
+def run_after_size(case, res):
+    """after GHE.size() the temperatures the object holds are the superposition for the height it reports (root, or either clamp)"""
+    from ghedesigner.enums import TimestepType
+
+    cfg = case["cfg"]
+    coords = coords_for(cfg["N"])
+    gf = ghe_factory.table_gfunction(coords, 5.0 if len(coords) > 1 else 0.075, HEIGHTS, 0.075, curve=cfg.get("curve", "base"))
+    table = snapshot_table(gf)
+    ghe = ghe_factory.make_ghe(coords, pipe=cfg.get("pipe", "single"), H=97.5, flow_per_bh=0.3, gfunc=gf, months=12)
+    q, t = seq_to_arrays([tuple(x) for x in case["seq"]], ghe.nbh * case["scale"])
+    with warnings.catch_warnings():
+        warnings.simplefilter("ignore")
+        inject(ghe, q, t)
+        res["evals"] += 1
+        ghe.size(method=TimestepType.HYBRID)
+        h = float(ghe.bhe.b.H)
+        where = "min" if h == ghe.sim_params.min_height else "max" if h == ghe.sim_params.max_height else "root"
+        compare(res, dict(case, returned_height=h), ghe.hp_eft, oracle_for(ghe, q, t, table), f"after size() ({where} height {h:.3f} m)")
+    res.outcome("after_size_" + where)
+    res["nontrivial"] += 1
+    res["sample"] = dict(case)
+
+
 def run_hourly(case, res):
     from ghedesigner.enums import TimestepType
 
@@ -330,6 +353,8 @@ def run_case(case):
         run_hourly(case, res)
     elif fam == "repeat":
         run_repeat(case, res)
+    elif fam == "after_size":
+        run_after_size(case, res)
     return res
 
 
@@ -378,6 +403,9 @@ def main(run: core.Run, only=None):
            for n, p, c in ((4, "single", "base"), (1, "coaxial", "steep")) for rbt in (0.06, 0.075, 0.09)
            for calls in (["hybrid", "hybrid", "hybrid"], ["grab", "grab", "hybrid"], ["hybrid", "size", "hybrid"])]
     run.drive(rep if not quick else rep[::2], family="one-height-table-other-radius")
+    asz = [{"family": "after_size", "cfg": {"N": n, "pipe": p}, "seq": [[1.0, 2190.0], [-0.6, 730.0], [2.0, 48.0], [0.5, 2000.0]], "scale": sc}
+           for n, p in ((4, "single"), (1, "coaxial"), (4, "double_parallel")) for sc in (0.02, 0.6, 1.0, 1.6, 4.0, 40.0)]
+    run.drive(asz, family="after-size")
     return run.finish(
         rule="detailed: every load sequence of length 1..4 over 5 load levels x 3 step lengths on real GHE objects; hybrid: real simulate() "
              "with injected sequences over a parameter lattice plus the four consequences; hourly: real simulate(HOURLY) on block profiles; "
@@ -387,5 +415,5 @@ def main(run: core.Run, only=None):
                 "hybrid_parameter_points": len(sel)},
         assumptions=["the combined g-function interpolant, R_b*, t_s and fluid properties are taken from the object (C10, C11, C15 check them)",
                      "the long-time table is a hand-built monotone table (the property quantifies over all monotone tables; three shapes are used)"],
-        require_outcomes=("detailed", "hybrid", "hourly", "repeat"),
+        require_outcomes=("detailed", "hybrid", "hourly", "repeat", "after_size_min", "after_size_root", "after_size_max"),
     )
